@@ -154,6 +154,30 @@ def doGet (toks : List String) (impl : String) : LineResult :=
     | _, _, _ => { modelObs := "badop" }
   | _ => { modelObs := "badop" }
 
+/-- `pget <map> <keyType> <valType> rawv=<hex>`: typed read of CPU 0's value of a per-CPU map into a slice -/
+def doPget (toks : List String) (impl : String) : LineResult :=
+  match toks with
+  | [_, m, kt, vt, va] =>
+    match findUse m kt vt, parseHexBytes ((va.splitOn "=").getD 1 "") with
+    | some u, some rv =>
+      match u.goVal with
+      | none => { modelObs := "badop" }
+      | some gv =>
+        let model := if gv.size != u.cValSize then "err size-value" else s!"v={leafStrings gv rv}"
+        let want := s!"v={leafStrings u.cVal rv}"
+        let tuple := s!"map={m} (per-CPU) go=({kt},[]{vt}) c=({u.cKey.name},{u.cVal.name})"
+        let viols : List Verdict :=
+          if impl == want then []
+          else if impl.startsWith "err size" then
+            [("size", "none", s!"{tuple} go-size={gv.size} map-value-size={u.cValSize} cilium:{impl}")]
+          else match firstDisagreement 0 (named gv.fields) (named u.cVal.fields) with
+            | some (_, g, c, w) => [(if w == "offset" || w == "count" then "offset" else "width", "none",
+                s!"{tuple} value-field go:{g} c:{c} {w} raw={hexOf rv} go-reads:{impl} c-wrote:{want}")]
+            | none => [("size", "none", s!"{tuple} raw={hexOf rv} go-reads:{impl} c-wrote:{want}")]
+        { modelObs := model, viols := viols }
+    | _, _ => { modelObs := "badop" }
+  | _ => { modelObs := "badop" }
+
 def doPercpu (toks : List String) (impl : String) : LineResult :=
   let m := match toks with
     | [_, "nat"] => "nat_stats_map"
@@ -167,7 +191,7 @@ def doPercpu (toks : List String) (impl : String) : LineResult :=
     let model := if percpu && !u.goValSlice then "err percpu" else "ok"
     let viols : List Verdict :=
       if impl == "ok" then [] else
-        [("size", if kfPercpuMaps.contains m then "KF-C06-percpu-scalar" else "none",
+        [("size", if kfPercpuMaps.contains m && impl == "err percpu" && percpu && !u.goValSlice then "KF-C06-percpu-scalar" else "none",
           s!"map={m} type={u.mapType} go-value={(u.goVal.map (·.name)).getD "-"} slice={u.goValSlice} site={u.site} cilium:{impl}")]
     { modelObs := model, viols := viols }
 
@@ -320,11 +344,34 @@ def xNat (a : List (String × String)) (impl : String) : LineResult :=
         if got == want then none else
           some ((if got == want.reverse then "byteorder" else "key", portClause m "key" leaf got want,
             s!"{what}:({m},key,{leaf}) go={hexOf got} program-stores={hexOf want} go-lookup-misses") : Verdict))
+    -- read-back: bytes the program stores in the value leaves, and what Go presents after decoding them
+    let allocPort := 1024   -- first block of a fresh manager (ManagerConfig defaults), first port of the block
+    let stIp := fun (leaf : String) (a b c d : UInt8) =>
+      ordOf a b c d (match ipField? "nat_sessions" "value" leaf with | some f => f.c | none => .wire)
+    let present := fun (stored : List UInt8) => hexOf stored.reverse              -- Go: LE integer, shown big-endian
+    let presentPort := fun (stored : List UInt8) => toHexW (leVal stored) 4
+    let rd := s!"rd.nat_ip={present (stIp "nat_ip" u0 u1 u2 u3)} rd.orig_ip={present (stIp "orig_ip" p0 p1 p2 p3)} " ++
+      s!"rd.dest_ip={present (stIp "dest_ip" d0 d1 d2 d3)} rd.nat_port={presentPort (portC "nat_sessions" "value" "nat_port" allocPort)} " ++
+      s!"rd.orig_port={presentPort (portC "nat_sessions" "value" "orig_port" sport)} rd.dest_port={presentPort (portC "nat_sessions" "value" "dest_port" dport)}"
+    let rde := s!"rde.external_ip={present (ordOf u0 u1 u2 u3 (match ipField? "eim_table" "value" "external_ip" with | some f => f.c | none => .wire))} " ++
+      s!"rde.external_port={presentPort (portC "eim_table" "value" "external_port" allocPort)}"
+    let rdIp := fun (m leaf tokn : String) (want : List UInt8) =>
+      let got := tokBytes impl tokn
+      if got.isEmpty || got == want then ([] : List Verdict) else
+        [(if got == want.reverse then "byteorder" else "key", d10Clause m "value" leaf got want,
+          s!"read-back:({m},value,{leaf}) go-presents={hexOf got} flow-has={hexOf want}")]
+    let rdPort := fun (m leaf tokn : String) (want : Nat) =>
+      let got := tokBytes impl tokn
+      let wantB := [UInt8.ofNat (want / 256), UInt8.ofNat (want % 256)]
+      if got.isEmpty || got == wantB then ([] : List Verdict) else
+        [(if got == wantB.reverse then "byteorder" else "key", portClause m "value" leaf got wantB,
+          s!"read-back:({m},value,{leaf}) go-presents-port={hexOf got} flow-has={hexOf wantB}")]
+    let wirePort := leVal (tokBytes impl "c.snat_port").reverse
     let cs := tokBytes impl "c.sess.k"
     let ce := tokBytes impl "c.eim.k"
     { modelObs := s!"go.hairpin={hexOf gHair} go.sub.k={hexOf gPriv} go.sub.public_ip={hexOf gPub} go.alg.k={hexOf goAlgK} go.alg.v={hexOf goAlgV} " ++
         s!"c.sub.k={hexOf cSub} c.alg.k={hexOf cAlg} c.hairpin.k={hexOf cHair} c.sess.k={hexOf cSess} c.eim.k={hexOf cEim} c.ret=0 " ++
-        s!"c.snat_src={hexOf snat} go.lookup={lookup} go.eim={eim}",
+        s!"c.snat_src={hexOf snat} c.snat_port={toHexW allocPort 4} go.lookup={lookup} go.eim={eim} {rd} {rde}",
       viols :=
         ipCheck "key" "subscriber_nat" "key" "" (tokBytes impl "go.sub.k") (tokBytes impl "c.sub.k") ++
         -- the hairpin set is keyed by what the program computes for a destination; Go stored the public address
@@ -342,7 +389,16 @@ def xNat (a : List (String × String)) (impl : String) : LineResult :=
             [("src_ip", gSrc, cs.take 4), ("dst_ip", gDst, (cs.drop 4).take 4)]
             [("src_port", portFieldGo sport, (cs.drop 8).take 2), ("dst_port", portFieldGo dport, (cs.drop 10).take 2)]) ++
         (if tok impl "go.eim" == "found" then [] else
-          missV "eim" "eim_table" [("internal_ip", gEimIp, ce.take 4)] [("internal_port", portFieldGo sport, (ce.drop 4).take 2)]) }
+          missV "eim" "eim_table" [("internal_ip", gEimIp, ce.take 4)] [("internal_port", portFieldGo sport, (ce.drop 4).take 2)]) ++
+        -- what Go decodes from the value the program wrote must be the flow's addresses and ports
+        rdIp "nat_sessions" "nat_ip" "rd.nat_ip" [u0, u1, u2, u3] ++
+        rdIp "nat_sessions" "orig_ip" "rd.orig_ip" [p0, p1, p2, p3] ++
+        rdIp "nat_sessions" "dest_ip" "rd.dest_ip" [d0, d1, d2, d3] ++
+        rdPort "nat_sessions" "nat_port" "rd.nat_port" wirePort ++
+        rdPort "nat_sessions" "orig_port" "rd.orig_port" sport ++
+        rdPort "nat_sessions" "dest_port" "rd.dest_port" dport ++
+        rdIp "eim_table" "external_ip" "rde.external_ip" [u0, u1, u2, u3] ++
+        rdPort "eim_table" "external_port" "rde.external_port" wirePort }
   | _, _, _, _, _, _ => { modelObs := "badop" }
 
 def xFnv (a : List (String × String)) : LineResult :=
@@ -450,6 +506,7 @@ def step (st : Unit) (toks : List String) (impl : String) : Unit × LineResult :
     | "put" :: _ => doPut toks impl
     | "get" :: _ => doGet toks impl
     | "percpu" :: _ => doPercpu toks impl
+    | "pget" :: _ => doPget toks impl
     | "x" :: "qos" :: rest => apiFailure (xQos (kvOf rest) impl) impl
     | "x" :: "antispoof" :: rest => apiFailure (xAntispoof (kvOf rest) impl) impl
     | "x" :: "dhcp" :: rest => apiFailure (xDhcp (kvOf rest) impl) impl
